@@ -8,7 +8,7 @@ import gsrouter_lib as g  # noqa: E402
 META = {
     "level": "model_checking",
     "technique": "TLA+ single-router model (Gossipsub.tla) model-checked for the FanoutKept action property (+ canary: publish replaces the fanout set); fanout of the real Behaviour (read through the verif hook) validated by TLC after every publish against TraceGossipsub",
-    "text": "TLC exhaustively checks that a publish to an unsubscribed topic keeps every still eligible fanout peer and only adds peers; the canary that replaces the set is rejected. Conformance: publish sequences against the real Behaviour (flood_publish off) with peers connecting, disconnecting, (un)subscribing and changing score between publishes and heartbeats; after each publish TLC checks that the fanout peers that are still connected, subscribed and above the publish threshold are still in the fanout set.",
+    "text": "TLC exhaustively checks that a publish to an unsubscribed topic keeps every still eligible fanout peer and only adds peers; the canary that replaces the set is rejected. Conformance: publish sequences against the real Behaviour (flood_publish off) with peers connecting, disconnecting, (un)subscribing and changing score between publishes and heartbeats; 2-8 peers, in half of the runs with send queues of 2 and slow peers whose queues are not drained for a while; TLC remembers every peer that entered a topic's fanout set since the set was last maintained (heartbeat) or dissolved (own subscribe) and has been eligible ever since (connected, subscribed, above the publish threshold), and checks at each publish to an unsubscribed topic that all of them are still in the fanout set - whichever step dropped them.",
     "note": "fanout_ttl expiry (real clock, 60 s) does not occur within a run.",
     "design_ref": "6/C35",
 }
